@@ -29,7 +29,7 @@ from ..canon import fingerprint
 from ..explorer import Step
 
 PROPERTY = "C20"
-ALPHABET = "racing frames on the reset stream D: HEADERS info/response/trailers, DATA small/ES/burst(5x16384)/padded burst(300 x 1 byte + 255 padding), WINDOW_UPDATE, RST_STREAM, PUSH_PROMISE(D->P); on the refused P: HEADERS response, DATA, RST_STREAM, WINDOW_UPDATE; cleanup; open+probe a further stream"
+ALPHABET = "racing frames on the reset stream D: HEADERS info/response/trailers, DATA small/ES/burst(5x16384)/padded burst(300 x 1 byte + 255 padding), WINDOW_UPDATE, RST_STREAM, PUSH_PROMISE(D->P); on the refused P: HEADERS response, DATA, RST_STREAM, WINDOW_UPDATE; cleanup; a refused send_headers / send_data / end_stream by the application on the reset stream; open+probe a further stream"
 BOUNDS = {"quick": "depth 5 from each of the 18 initial scenarios", "thorough": "depth 7 (or time budget, reported)"}
 sb = H.stateless_block
 
@@ -72,6 +72,7 @@ class Spec:
         st.next_even = 2
         st.next_odd = 3
         st.probed = 0
+        st.misused = False        # the application has already called a sending method on the reset stream
         st.mcs = mcs
         h.rx([wire.settings([], ack=True)])
         if mcs != 100:
@@ -127,12 +128,15 @@ class Spec:
     def fingerprint(self, st):
         return fingerprint(st.h.conn, st.h.m.key(), st.penc, st.nfresh, st.dead, tuple(sorted(st.dead_ids)),
                            tuple(sorted(st.phase.items())), tuple(sorted(st.can_push)), st.next_even, st.next_odd,
-                           tuple(st.race), st.probed)
+                           tuple(st.race), st.probed, st.misused)
 
     def actions(self, st):
         if st.dead:
             return []
         acts = ["cleanup"]
+        if not st.misused and st.race:
+            # the application touches the stream it has reset once more: each call must be refused and change nothing
+            acts += ["l:hdr:%d" % st.race[0], "l:data:%d" % st.race[0], "l:end:%d" % st.race[0]]
         if st.probed < 2 and (self.client or st.h.m.count_open(False) + 1 <= st.mcs):
             acts.append("probe")
         for sid in st.race:
@@ -174,6 +178,21 @@ class Spec:
         if lab == "cleanup":
             h.cleanup()
             return Step("cleanup")
+        if lab.startswith("l:"):
+            _, what, sid = lab.split(":")
+            sid = int(sid)
+            st.misused = True
+            if what == "hdr":
+                o = h.api("send_headers", sid, H.ni(H.REQ if self.client else H.RESP))
+            elif what == "data":
+                o = h.api("send_data", sid, b"late")
+            else:
+                o = h.api("end_stream", sid)
+            if o.kind == "ok" or o.raw:
+                bad("send-on-reset-stream-not-refused", "%s on a stream the application reset -> %s" % (lab, o.brief()), call=what)
+                st.dead = True
+                return Step("l-accepted", viols, prune=True)
+            return Step("l-refused", viols)
         if lab == "probe":
             st.probed += 1
             extra = [(b"x-race-%d" % i, b"v%d" % i) for i in range(1, st.nfresh + 1)]
